@@ -285,16 +285,39 @@ class HplContradiction(HplPredicate):
 
 def _get_reference_table(expr: HplExpression) -> Dict[str, List[HplExpression]]:
     ref_table = {}
-    for obj in expr.iterate():
-        assert isinstance(obj, HplExpression)
-        if obj.is_accessor or (obj.is_value and obj.is_variable):
-            key = str(obj)
-            refs = ref_table.get(key)
-            if refs is None:
-                refs = []
-                ref_table[key] = refs
-            refs.append(obj)
+    _collect_references(expr, ref_table, {})
     return ref_table
+
+
+def _collect_references(
+    expr: HplExpression,
+    ref_table: Dict[str, List[HplExpression]],
+    scopes: Dict[str, int],
+):
+    # `scopes` maps the variable of each enclosing quantifier to a number that
+    # identifies the quantifier. References based on quantified variables are
+    # keyed by it, so that sibling quantifiers are free to reuse a variable
+    # name for elements of different types.
+    if expr.is_quantifier:
+        # the variable is not in scope within the domain
+        _collect_references(expr.domain, ref_table, scopes)
+        scopes = dict(scopes)
+        scopes[expr.variable] = len(ref_table)
+        _collect_references(expr.condition, ref_table, scopes)
+        return
+    if expr.is_accessor or (expr.is_value and expr.is_variable):
+        key = str(expr)
+        base = expr.base_object() if expr.is_accessor else expr
+        if base.is_value and base.is_variable and base.name in scopes:
+            key = f'{key} #{scopes[base.name]}'
+        refs = ref_table.get(key)
+        if refs is None:
+            refs = []
+            ref_table[key] = refs
+        refs.append(expr)
+    for child in expr.children():
+        assert isinstance(child, HplExpression)
+        _collect_references(child, ref_table, scopes)
 
 
 def predicate_from_expression(expr: HplExpression) -> HplPredicate:
